@@ -137,6 +137,8 @@ def xarray_domain(prog: dict) -> bool:
     for fn in prog["funcs"]:
         if not fn["mapspec"] and fn["int_axes"]:
             return False  # auto-generated MapSpec
+        if fn.get("nones"):
+            return False  # xarray represents None inside object arrays as missing (nan)
     for r, spec in prog["roots"].items():
         if len(spec["axes"]) > 2:
             return False
